@@ -231,6 +231,33 @@ func castOracles(rep *streamReport, props map[string]bool, t castTarget, v inter
 			}
 		}
 	}
+	// ---- C09: a text in fraction / exponent notation (a value, but not a plain decimal): if it is accepted at all,
+	// the result is exactly the number the text denotes
+	if props["C09"] && t.bits != 0 && t.fn == 0 && !o.panicked && o.err == nil {
+		var txt string
+		switch x := v.(type) {
+		case string:
+			txt = x
+		case json.Number:
+			txt = string(x)
+		}
+		if txt != "" && jsonNumberRe.MatchString(txt) && !canonicalDecimal.MatchString(txt) {
+			if exact, ok := new(big.Rat).SetString(txt); ok {
+				rep.OracleChecks["C09"]++
+				got, isInt := resultInt(o.res)
+				if !isInt || !exact.IsInt() || exact.Num().Cmp(got) != 0 {
+					addViolation(rep, "C09", fmt.Sprintf("the text %q denotes %s but the cast returns %v (a value invented by rounding)", txt, exact.RatString(), o.res), in())
+				}
+			}
+		}
+	}
+	// ---- C09: a time accepted by an integer cast is its Unix seconds, exactly (as ToNumber / ToTimestamp read it)
+	if tm, isTime := v.(time.Time); isTime && props["C09"] && t.bits != 0 && t.fn == 0 && !o.panicked && o.err == nil {
+		rep.OracleChecks["C09"]++
+		if got, isInt := resultInt(o.res); !isInt || got.Cmp(big.NewInt(tm.Unix())) != 0 {
+			addViolation(rep, "C09", fmt.Sprintf("the time %s (Unix seconds %d) was cast to %v (wrapped or invented)", tm.Format(time.RFC3339), tm.Unix(), o.res), in())
+		}
+	}
 	// ---- C11: binary form ----
 	if props["C11"] && !o.panicked {
 		if n, ok := sizeOfFixed(v); ok && t.name == "[]byte" {
